@@ -186,6 +186,8 @@ def bag(F, b):
             if name.startswith('<indirect'):
                 name = 'INDIRECT'
             nn = normname(name)
+            # non-blocking acquisition: same event in both flavours (shared / exclusive kept apart)
+            nn = {'CELL::try_borrow': 'CELL::try_acq_sh', 'CELL::try_read': 'CELL::try_acq_sh', 'CELL::try_borrow_mut': 'CELL::try_acq_ex', 'CELL::try_write': 'CELL::try_acq_ex'}.get(nn, nn)
             if (nn.startswith('core::fmt::rt::Argument::new_') or nn.startswith('std::fmt::Arguments::new')) and not fmt_relevant:
                 continue   # formatting matters where text is the function's product (String / Formatter), not in diagnostics
             # closed event alphabet: crate-local calls, user code (trait calls on K/N/E, callbacks) and a fixed table of std
@@ -292,6 +294,8 @@ def sem_bag(F, b, seen=None, env=None, owner_public=None):
                 ak = normname(raw)
                 if not ak.startswith('F::') or raw.rsplit('::', 1)[0] in iter_adts or 'error::Error' in ak:
                     continue
+                if ak in ('F::node::Node::Node', 'F::node::adjacent::WeakNode::WeakNode'):
+                    continue      # a handle to an existing allocation (ENC-d: built only by new / clone / upgrade), not a new object
                 if len(rv['ops']) >= 2:
                     ots = [strip_payload(pv.of_operand(o)) for o in rv['ops']]
                     if all(isinstance(o, tuple) and len(o) == 3 and o[0] == 'f' and o[2] == str(i) for i, o in enumerate(ots)) and len({o[1] for o in ots}) == 1:
@@ -322,6 +326,10 @@ def sem_bag(F, b, seen=None, env=None, owner_public=None):
                 if public:
                     if any(e[0] == 'M' for e in sub):
                         ev.add(('C', nn))
+                    # which crate values get built does not depend on whether a public constructor-like callee (`reverse()`) is
+                    # called or spelled out
+                    if not F.bodies[r].get('impl_trait'):      # (not through Iterator::next: whether a loop or std drives it is style)
+                        ev |= {e for e in sub if e[0] == 'A'}
                 else:
                     ev |= sub       # a private callee is part of this function: its name is nobody's business
         elif (STD_ONLY.match(nn) or nn.startswith('std::string::')) and last in MUT_POOL and t['args']:
@@ -529,7 +537,7 @@ STD_ONLY = re.compile(r'^(std::vec::|std::collections::|HSET|HMAP|<HSET as |<HMA
 # adaptors that keep order and multiplicity); mutating or order-changing ones (truncate, drain, retain, sort, swap_remove, ...) are not
 IDIOM_OPS = {'contains', 'contains_key', 'get', 'len', 'is_empty', 'iter', 'into_iter', 'next', 'position', 'enumerate', 'map', 'cloned', 'copied', 'collect',
              'pop', 'push', 'extend', 'append', 'reverse', 'rev', 'last', 'first', 'sum', 'ok_or', 'ok_or_else', 'unwrap_or', 'is_some', 'is_none', 'is_ok', 'is_err', 'as_ref', 'values', 'keys',
-             'any', 'all', 'find', 'for_each', 'count', 'index', 'skip', 'eq', 'ne', 'push_back', 'push_front', 'pop_back', 'pop_front', 'call', 'call_mut', 'call_once', 'split_last', 'split_first', 'saturating_sub', 'with_capacity', 'new', 'default', 'and_then', 'ok', 'filter_map', 'flatten', 'zip', 'chain', 'by_ref', 'peekable'}
+             'any', 'all', 'find', 'for_each', 'count', 'index', 'skip', 'eq', 'ne', 'push_back', 'push_front', 'pop_back', 'pop_front', 'call', 'call_mut', 'call_once', 'split_last', 'split_first', 'saturating_sub', 'with_capacity', 'new', 'default', 'and_then', 'ok', 'filter_map', 'flatten', 'zip', 'chain', 'by_ref', 'peekable', 'once'}
 
 
 ITER_PLUMBING = {'iter', 'into_iter', 'next', 'map', 'cloned', 'copied', 'collect', 'enumerate', 'sum', 'for_each', 'by_ref', 'values', 'keys', 'as_ref', 'len', 'with_capacity', 'new'}
@@ -812,7 +820,10 @@ def sib(ctx):
                 if k.recurse and 'RECORD' in k.sites:
                     rb = k.recurse[0][0]
                     emit = 'pre' if k.cfg.dominates(k.sites['RECORD'], rb) else ('post' if k.cfg.dominates(rb, k.sites['RECORD']) else '?')
-                return (k.family, k.iter_ctor, k.edge_kind, bool(k.result), emit, k.teq_true is not None)
+                # the iterator is identified by its type (`for e in &node` and `node.iter_out()` both build an IterOut at position 0;
+                # what the constructors build is decided by IT2 / ORIENT)
+                ic = getattr(k, 'iter_type', None) or k.iter_ctor
+                return (k.family, ic, k.edge_kind, bool(k.result), emit, k.teq_true is not None)
             sa, ss = sig(K), sig(KS)
             out.append(Obl('SIB-SEM', '%s|%s::%s' % (a, s_, q.split('::', 1)[1]), KS.b['span'], 'same kernel signature (iterator, edge presentation, frontier discipline, emission)', sa == ss,
                            'both: %s' % (sa,) if sa == ss else 'plain %s vs sync %s' % (sa, ss)))
